@@ -12,6 +12,7 @@ import (
 	"log"
 	"reflect"
 	"strings"
+	"time"
 
 	am "github.com/hashicorp/go-argmapper"
 	"github.com/hashicorp/go-hclog"
@@ -141,6 +142,9 @@ func (f *fnSpec) dynFor(j int) int {
 // run is the common body: record the execution, decide by script what to return.
 // It returns the output values (one per Outs entry), whether the struct pointer is nil, and the error.
 func (f *fnSpec) run(got []reflect.Value) (outs []reflect.Value, nilPtr bool, err error) {
+	if raceMode && f.Once {
+		time.Sleep(300 * time.Microsecond) // overlapping first uses must stay overlapping
+	}
 	raceMu.Lock() // the harness's own counters and event list; never held while library code runs
 	defer raceMu.Unlock()
 	nth := f.execs
